@@ -1,12 +1,167 @@
 /-
-Driver: bitboard and conversion operations (C20).
+Driver: bitboard and conversion operations (C20): model answers and set-theoretic verdicts.
 -/
 import OwlModel.Driver.Ops2
+import OwlModel.Impl.Bits
 
 namespace Owl.Drv
 open Owl
 
-def opBB (_args : List String) (_impl : String) : String × String := ("~", "-")
-def opConv (_ty : String) (_impl : String) : String × String := ("~", "-")
+def fmtSqList (l : List Sq) : String := if l.isEmpty then "-" else String.intercalate "," (l.map fun s => toString s.val)
+
+def parseInt (s : String) : Option Int :=
+  if s.startsWith "-" then (sdrop s 1).toNat?.map fun n => -(n : Int) else s.toNat?.map fun n => (n : Int)
+
+/-- the set of squares of a bitboard, by membership test -/
+def setOf (b : BB) : List Sq := Sq.all.filter fun s => b.has s
+def bbOfSet (l : List Sq) : BB := BB.ofList l
+
+def specFlipRank (s : Sq) : Option Sq := Spec.mkSq? (Spec.file s) (7 - (Spec.rank s : Int))
+def specFlipFile (s : Sq) : Option Sq := Spec.mkSq? (7 - (Spec.file s : Int)) (Spec.rank s)
+
+def constM : String :=
+  String.intercalate "," (
+    ((List.range 15).map fun i => hexBB (tabGet Gen.diagTab i))
+    ++ ((List.range 15).map fun i => hexBB (tabGet Gen.antidiagTab i))
+    ++ ((List.range 8).map fun i => hexBB (tabGet Gen.rankTab i))
+    ++ ((List.range 8).map fun i => hexBB (tabGet Gen.fileTab i))
+    ++ [hexBB Impl.lightSquares, hexBB Impl.darkSquares])
+
+def constS : String :=
+  let sel (p : Sq → Bool) := hexBB (bbOfSet (Sq.all.filter p))
+  String.intercalate "," (
+    ((List.range 15).map fun i => sel fun s => Spec.file s + Spec.rank s = i)
+    ++ ((List.range 15).map fun i => sel fun s => 7 - Spec.rank s + Spec.file s = i)
+    ++ ((List.range 8).map fun i => sel fun s => Spec.rank s = i)
+    ++ ((List.range 8).map fun i => sel fun s => Spec.file s = i)
+    ++ [sel Spec.squareLight, sel fun s => !Spec.squareLight s])
+
+def opBB (args : List String) (impl : String) : String × String :=
+  match args with
+  | [op, a, b] =>
+    (match op with
+     | "and" | "or" | "xor" =>
+       (match parseBB a, parseBB b with
+        | some x, some y =>
+          let m := match op with | "and" => x &&& y | "or" => x ||| y | _ => x ^^^ y
+          let s := match op with
+            | "and" => (setOf x).filter (setOf y).contains
+            | "or" => Sq.all.filter fun t => (setOf x).contains t || (setOf y).contains t
+            | _ => Sq.all.filter fun t => (setOf x).contains t != (setOf y).contains t
+          (hexBB m, expect (hexBB (bbOfSet s)) impl)
+        | _, _ => ("badop", "-"))
+     | "with" | "without" | "has" =>
+       (match parseBB a, parseSq b with
+        | some x, some t =>
+          (match op with
+           | "with" => (hexBB (x ||| BB.single t), expect (hexBB (bbOfSet (t :: setOf x))) impl)
+           | "without" => (hexBB (x &&& ~~~ BB.single t), expect (hexBB (bbOfSet ((setOf x).filter (· ≠ t)))) impl)
+           | _ => (bool01 (((x >>> t.val) &&& 1#64) != 0#64), expect (bool01 ((setOf x).contains t)) impl))
+        | _, _ => ("badop", "-"))
+     | "deposit" =>
+       (match parseBB a, parseBB b with
+        | some mask, some x =>
+          let pos := setOf mask
+          let s := (List.range pos.length).filterMap fun i => if x.getLsbD i then pos[i]? else none
+          (hexBB (Impl.depositBits mask x), expect (hexBB (bbOfSet s)) impl)
+        | _, _ => ("badop", "-"))
+     | "shl" | "shr" =>
+       (match parseBB a, b.toNat? with
+        | some x, some n =>
+          if op = "shl" then
+            (hexBB (x <<< n), expect (hexBB (bbOfSet ((setOf x).filterMap fun s => if h : s.val + n < 64 then some ⟨s.val + n, h⟩ else none))) impl)
+          else
+            (hexBB (x >>> n), expect (hexBB (bbOfSet ((setOf x).filterMap fun s => if h : n ≤ s.val then some ⟨s.val - n, by have := s.isLt; omega⟩ else none))) impl)
+        | _, _ => ("badop", "-"))
+     | "add" =>
+       (match parseSq a, parseInt b with
+        | some s, some d =>
+          let r := match s.add? d with | some t => toString t.val | none => "panic"
+          let v : Int := (s.val : Int) + d
+          (r, expect (if 0 ≤ v ∧ v < 64 then toString v else "panic") impl)
+        | _, _ => ("badop", "-"))
+     | _ => ("badop", "-"))
+  | [op, a] =>
+    (match op with
+     | "not" =>
+       (match parseBB a with
+        | some x => (hexBB (~~~ x), expect (hexBB (bbOfSet (Sq.all.filter fun t => !(setOf x).contains t))) impl)
+        | none => ("badop", "-"))
+     | "len" =>
+       (match parseBB a with
+        | some x => (toString (Impl.popCount x), expect (toString (setOf x).length) impl)
+        | none => ("badop", "-"))
+     | "iter" =>
+       (match parseBB a with
+        | some x => (fmtSqList (Impl.bbIter x), expect (fmtSqList (setOf x)) impl)
+        | none => ("badop", "-"))
+     | "fliprank" =>
+       (match parseBB a with
+        | some x => (hexBB (Impl.flippedRank x), expect (hexBB (bbOfSet ((setOf x).filterMap specFlipRank))) impl)
+        | none => ("badop", "-"))
+     | "flipfile" =>
+       (match parseBB a with
+        | some x => (hexBB (Impl.flippedFile x), expect (hexBB (bbOfSet ((setOf x).filterMap specFlipFile))) impl)
+        | none => ("badop", "-"))
+     | "sq" =>
+       (match parseSq a with
+        | some s =>
+          let m := s!"{s.file.val} {s.rank.val} {s.flipRank.val} {s.flipFile.val} {s.file.val + s.rank.val} {7 - s.rank.val + s.file.val}"
+          let f := Spec.file s; let r := Spec.rank s
+          let e := s!"{f} {r} {(7 - r) * 8 + f} {r * 8 + (7 - f)} {f + r} {7 - r + f}"
+          (m, expect e impl)
+        | none => ("badop", "-"))
+     | _ => ("badop", "-"))
+  | ["shift", a, df, dr] =>
+    (match parseSq a, parseInt df, parseInt dr with
+     | some s, some df, some dr =>
+       let m := match s.shift df dr with | some t => toString t.val | none => "-"
+       let e := match Spec.step s (df, dr) with | some t => toString t.val | none => "-"
+       (m, expect e impl)
+     | _, _, _ => ("badop", "-"))
+  | ["const"] => (constM, expect constS impl)
+  | _ => ("badop", "-")
+
+def probes (f : Nat → Bool) : String := String.ofList ((List.range 71).map fun n => if f n then '1' else '0')
+
+def opConv (ty : String) (impl : String) : String × String :=
+  let ch (n : Nat) : String := String.singleton (Char.ofNat n)
+  let str (l : List Nat) : String := String.ofList (l.map Char.ofNat)
+  match ty with
+  | "file" =>
+    (String.intercalate "," ((List.finRange 8).map fun f => s!"{f.val}:{ch (Impl.fileByte f)}") ++ " " ++ probes (· < 8),
+     expect "0:a,1:b,2:c,3:d,4:e,5:f,6:g,7:h 11111111000000000000000000000000000000000000000000000000000000000000000" impl)
+  | "rank" =>
+    (String.intercalate "," ((List.finRange 8).map fun r => s!"{r.val}:{ch (Impl.rankByte r)}") ++ " " ++ probes (· < 8),
+     expect "0:8,1:7,2:6,3:5,4:4,5:3,6:2,7:1 11111111000000000000000000000000000000000000000000000000000000000000000" impl)
+  | "coord" =>
+    let files := "abcdefgh".toList
+    let e := String.intercalate "," ((List.range 64).map fun i =>
+      s!"{i}:{files.getD (i % 8) '?'}{8 - i / 8}") ++ " " ++ probes (· < 64)
+    (String.intercalate "," (Sq.all.map fun s => s!"{s.val}:{str (Impl.fmtCoord s)}") ++ " " ++ probes (· < 64), expect e impl)
+  | "piece" =>
+    let names := ["Pawn", "King", "Knight", "Bishop", "Rook", "Queen"]
+    let m := String.intercalate "," (Piece.all.map fun p => s!"{p.idx}:{names.getD p.idx "?"}") ++ " "
+      ++ probes fun n => (Piece.ofIdx n).isSome
+    (m, expect "0:Pawn,1:King,2:Knight,3:Bishop,4:Rook,5:Queen 11111100000000000000000000000000000000000000000000000000000000000000000" impl)
+  | "cell" =>
+    (String.intercalate "," (Cell.all.map fun c => s!"{c.val}:{ch (Impl.cellByte c)}") ++ " " ++ probes (· < 13),
+     expect "0:.,1:P,2:K,3:N,4:B,5:R,6:Q,7:p,8:k,9:n,10:b,11:r,12:q 11111111111110000000000000000000000000000000000000000000000000000000000" impl)
+  | "color" =>
+    (s!"0:{ch (Impl.colorByte .white)},1:{ch (Impl.colorByte .black)} " ++ probes fun n => (Impl.colorOfByte (n + 33)).isSome,
+     expect ("0:w,1:b " ++ probes fun n => n + 33 = 98 || n + 33 = 119) impl)
+  | "rights" =>
+    let e := "0:-,1:Q,2:K,3:KQ,4:q,5:Qq,6:Kq,7:KQq,8:k,9:Qk,10:Kk,11:KQk,12:kq,13:Qkq,14:Kkq,15:KQkq "
+      ++ probes (· < 16)
+    (String.intercalate "," ((List.finRange 16).map fun r => s!"{r.val}:{str (Impl.fmtRights r)}") ++ " " ++ probes (· < 16),
+     expect e impl)
+  | "geom" =>
+    let one (c : Color) : List String :=
+      [toString (Impl.castlingRank c).val, toString (Impl.doubleSrcRank c).val, toString (Impl.doubleDstRank c).val,
+       toString (Impl.promoteSrcRank c).val, toString (Impl.promoteDstRank c).val, toString (Impl.epSrcRank c).val,
+       toString (Impl.epDstRank c).val, toString (Impl.forwardDelta c), toString (Impl.leftDelta c),
+       toString (Impl.rightDelta c)]
+    (String.intercalate " " (one .white ++ one .black), expect "7 6 4 1 0 3 2 -8 -9 -7 0 1 3 6 7 4 5 8 7 9" impl)
+  | _ => ("badop", "-")
 
 end Owl.Drv
